@@ -80,3 +80,26 @@ pub(crate) fn on_store_access() -> bool {
     AGE_COUNTDOWN.store(left - 1, Ordering::SeqCst);
     false
 }
+
+// ---- H9: event sink of the store actor --------------------------------------------------------
+
+static ACTOR_SINK: std::sync::Mutex<Option<Option<std::fs::File>>> = std::sync::Mutex::new(None);
+static ACTOR_SEQ: AtomicU64 = AtomicU64::new(0);
+
+/// Append one line to `<IROH_DOCS_VERIF_TRACE>/<pid>.ndjson` (nothing happens unless that environment
+/// variable names a directory). Called by the store actor thread after it has handled a request on an
+/// open-able document, i.e. at the linearization point of the request: the actor is the only owner of
+/// the per-document state it reports.
+pub(crate) fn actor_event(line: String) {
+    use std::io::Write;
+    let mut guard = ACTOR_SINK.lock().expect("poisoned");
+    let sink = guard.get_or_insert_with(|| {
+        let dir = std::env::var_os("IROH_DOCS_VERIF_TRACE")?;
+        let path = std::path::Path::new(&dir).join(format!("{}.ndjson", std::process::id()));
+        std::fs::OpenOptions::new().create(true).append(true).open(path).ok()
+    });
+    if let Some(file) = sink.as_mut() {
+        let seq = ACTOR_SEQ.fetch_add(1, Ordering::SeqCst);
+        let _ = writeln!(file, "{{\"seq\":{seq},{line}}}");
+    }
+}
